@@ -46,9 +46,13 @@ ASSUMPTIONS = [
     'operator criteria on `id`: `in` (automatic and explicit ids mixed) on every driver for update / remove / query; gt ge lt '
     'le compare ids as strings on the JSON and Redis drivers and are not generated for Mongo (ObjectId and str keys side by '
     'side are ordered by BSON type, not as strings)',
+    'ids are strings (persist/typing.py: Id = str): every string is a legal explicit id, including the falsy ones - the empty '
+    'string and "0" are in the id pool; non-string ids (0, False, None) are outside the contract and not generated',
+    'records without fields ({} / id only) are inserted, written by replace (with and without the id inside the record) and '
+    'update is called with an empty record_part, on every driver; a collection that has received one is no longer sorted on',
     'limits are >= 0; NaN / infinities are not JSON-representable and are not generated; dates are >= year 1000 '
-    '(strptime %Y needs four digits); record_part of update is non-empty and never contains `id`; projections are '
-    'non-empty lists or None; explicit numeric ids are >= 1000 (the Redis counter would otherwise run into them)',
+    '(strptime %Y needs four digits); record_part of update never contains `id`; projections are '
+    'non-empty lists or None; explicit numeric ids are >= 1000 or "0" (the Redis counter would otherwise run into them)',
     'Mongo profile: BSON has no date-only type and 64-bit integers, arrays change the meaning of equality filters, '
     'modified_count ignores no-op updates: sequences run on Mongo use datetimes (ms precision), ints < 2^63, equality '
     'filters only on scalar fields, no limit=0 (MongoDB: 0 = no limit), and - while MONGO_NOOP_UPDATES is off, see finding 9 - every update sets a fresh value',
@@ -66,7 +70,7 @@ COLLS = ['ports', 'slaves', 'x:y-z']
 ALPHABET = ['a', 'b', 'z', 'A', '0', ' ', '"', '\\', '\n', '\x00', '\t', '\x7f', '/', 'é', 'ß', '€', ' ',
             '\U0001f600', '\U00010000', '￿', '{', ':']
 EXPLICIT_IDS = ['1034', '007', 'abc', 'long.id-with_vari0u5-characters', 'a:b', '-5', 'aaaaaaaaaaaaaaaaaaaaaaaa',
-                '0123456789abcdef01234567', 'ABCDEFABCDEFABCDEFABCDEF', '5000', 'é"\\']
+                '0123456789abcdef01234567', 'ABCDEFABCDEFABCDEFABCDEF', '5000', 'é"\\', '', '0', '']
 KINDS = {'json-mem': 0, 'json-file': 0, 'redis': 1, 'mongo': 2}
 OPS = ['gt', 'ge', 'lt', 'le', 'in']
 COQ_OP = {'gt': 'Gt_', 'ge': 'Ge_', 'lt': 'Lt_', 'le': 'Le_', 'in': 'In_'}
@@ -339,7 +343,7 @@ class Gen:
 
     def record(self, coll, allow_empty=True):
         rng = self.rng
-        if allow_empty and rng.random() < 0.02:
+        if allow_empty and rng.random() < 0.04:
             self.unsortable.add(coll)               # sort keys must be present in every record (contract)
             return {}
         r = {}
@@ -361,6 +365,8 @@ class Gen:
     def part(self, coll, uid):
         rng = self.rng
         p = {}
+        if rng.random() < 0.04:
+            return p                                # update(..., {}, filt): counts the matches, changes nothing
         fields = self.MANDATORY[coll] + self.OPTIONAL
         for _ in range(rng.randint(1, 2)):
             f = rng.choice(fields + self.FREE)
@@ -462,7 +468,13 @@ class Gen:
         if r < 0.40:
             return {'uid': uid, 'op': 'update', 'coll': coll, 'part': self.part(coll, uid), 'filt': self.filt(coll)}
         if r < 0.50:
-            return {'uid': uid, 'op': 'replace', 'coll': coll, 'id': self.some_id(coll), 'record': self.record(coll, False)}
+            o = {'uid': uid, 'op': 'replace', 'coll': coll, 'id': self.some_id(coll), 'record': self.record(coll, rng.random() < 0.5)}
+            if rng.random() < 0.12:
+                o['record'] = {}                    # a field-less record: only its id is left
+                self.unsortable.add(coll)
+            if rng.random() < 0.3:
+                o['with_id'] = True                 # the record carries its own id, as persist.replace() passes it
+            return o
         if r < 0.60:
             return {'uid': uid, 'op': 'remove', 'coll': coll, 'filt': self.filt(coll)}
         if r < 0.63:
@@ -781,7 +793,7 @@ async def run_seq(kind, seq, workdir, tag):
             elif k == 'replace':
                 conc['id'] = res(o['id'])
                 conc['record'] = o['record']
-                out = ('bool', bool(await driver.replace(coll, conc['id'], handed_arg('record', o['record']))))
+                out = ('bool', bool(await driver.replace(coll, conc['id'], handed_arg('record', o['record'], {'id': conc['id']} if o.get('with_id') else None))))
             elif k == 'remove':
                 conc['filt'] = cfilt_concrete(o['filt'])
                 out = ('count', int(await driver.remove(coll, arg('filt', rfilt(o['filt'])))))
